@@ -30,6 +30,8 @@ func main() {
 		os.Exit(cmdCheck(os.Args[2:]))
 	case "run":
 		os.Exit(cmdRun(os.Args[2:]))
+	case "replay":
+		os.Exit(cmdReplay(os.Args[2:]))
 	case "list":
 		for _, id := range propertyIDs() {
 			for _, h := range checks[id] {
@@ -529,3 +531,72 @@ func writeEvidence(prop string, tier int, seed int64, results []*HarnessResult, 
 }
 
 func round1(f float64) float64 { return float64(int64(f*10+0.5)) / 10 }
+
+// cmdReplay re-runs a stored counterexample (replays/<id>/<sig>.json) natively
+// against /repo's current working tree; exit 1 when it still reproduces.
+func cmdReplay(args []string) int {
+	if len(args) < 1 {
+		fmt.Fprintln(os.Stderr, "usage: gosym replay <file>")
+		return 2
+	}
+	data, err := os.ReadFile(args[0])
+	if err != nil {
+		fmt.Fprintln(os.Stderr, err)
+		return 2
+	}
+	var rec struct {
+		Property string   `json:"property"`
+		Harness  string   `json:"harness"`
+		Kind     string   `json:"kind"`
+		Label    string   `json:"label"`
+		Nondet   []uint64 `json:"nondet"`
+		Tier     int      `json:"tier"`
+		Mod      string   `json:"mod"`
+		Pkg      string   `json:"pkg"`
+	}
+	if err := json.Unmarshal(data, &rec); err != nil {
+		fmt.Fprintln(os.Stderr, err)
+		return 2
+	}
+	modDir, pats := modPatterns(rec.Mod)
+	prog, err := loadProgram(verifDir, modDir, pats)
+	if err != nil {
+		fmt.Fprintln(os.Stderr, err)
+		return 2
+	}
+	os.MkdirAll(filepath.Join(verifDir, ".work"), 0o755)
+	nr := &nativeRunner{verifDir: verifDir, modDir: modDir, pkg: rec.Pkg, race: rec.Kind == "race"}
+	defer nr.cleanup()
+	if err := nr.build(prog, []string{rec.Harness}); err != nil {
+		fmt.Fprintln(os.Stderr, err)
+		return 2
+	}
+	v := &Violation{Kind: rec.Kind, Label: rec.Label}
+	for try := 0; try < 12; try++ {
+		out := nr.run([]nativeCase{{ID: "r", Harness: rec.Harness, Nondet: rec.Nondet, Tier: rec.Tier}}, 6*time.Second)
+		res := out["r"]
+		if res == nil {
+			continue
+		}
+		ok := false
+		switch rec.Kind {
+		case "assert":
+			ok = res.Status == "assert" && res.Label == v.Label
+		case "panic":
+			ok = res.Status == "panic" || res.Status == "crash"
+		case "hang", "deadlock":
+			ok = res.Status == "timeout" || res.Status == "crash"
+		case "race":
+			ok = res.Status == "race"
+		}
+		if ok {
+			fmt.Printf("REPRODUCED property=%s harness=%s kind=%s label=%q native=%s %s\n", rec.Property, rec.Harness, rec.Kind, rec.Label, res.Status, firstLine(res.Msg))
+			return 1
+		}
+		if try == 0 {
+			fmt.Printf("native status: %s %s %s\n", res.Status, res.Label, firstLine(res.Msg))
+		}
+	}
+	fmt.Printf("NOT REPRODUCED property=%s harness=%s\n", rec.Property, rec.Harness)
+	return 0
+}
